@@ -239,10 +239,6 @@ def classify(sc, cls, detail):
         given = [tuple(g) for g in sc['given']]
         ent, key = detail['entity'], detail['key']
         return 'bag-given-object-without-collections-when-also-related'
-    if cls == 'bag:new-object-keyed-None': return 'bag-new-object-keyed-None'
-    if cls == 'bag:new-object-id-None-under-its-key': return 'bag-new-object-id-None-under-its-key'
-    if cls == 'bag:EXC:TypeError' and any(m[0] == 'new_a' for m in sc.get('mods', [])) and 'NoneType' in str(detail.get('detail', '')):
-        return 'bag-new-object-None-key-TypeError'
     return 'unlisted:' + cls
 
 
@@ -274,11 +270,17 @@ def failure_of(sc, cls, detail):
     return Failure(key, '%s: %s' % (cls, json.dumps(detail, default=str)[:300]), {'scenario': sc, 'class': cls})
 
 
+def corpus_scenarios():
+    """minimised past failures (corpus/C31/*.json), run first"""
+    import glob, os
+    return [json.load(open(f))['scenario'] for f in sorted(glob.glob(os.path.join(vlib.VERIF, 'corpus', 'C31', '*.json')))]
+
+
 def search(ctx, deep):
     failures, evals, nontriv = [], 0, set()
     per_key = {}
     dist = {'mods': {}, 'given_size': {}}
-    scs = [all_pairs_scenario()]
+    scs = corpus_scenarios() + [all_pairs_scenario()]
     for _ in range(4000 if deep else 250):
         scs.append(gen_scenario(ctx.rng))
     for sc in scs:
@@ -293,7 +295,7 @@ def search(ctx, deep):
             if per_key[f.key] == 1: failures.append(f)
     dist['failing_checks_by_key'] = per_key
     return Search(evaluations=evals, failures=failures, nontrivial=len(nontriv), distribution=dist, exhaustive=False,
-                  samples=[{'scenario': scs[1], 'oracle': 'Python shadow of the session state; keys decoded with the reference decoder'}])
+                  samples=[{'scenario': scs[-1], 'oracle': 'Python shadow of the session state; keys decoded with the reference decoder'}])
 
 
 def replay(ctx, data):
@@ -311,8 +313,7 @@ def replay(ctx, data):
 
 LEVEL_TEXT = ('Machine-checked proof (Coq 8.16.1) that the composite-key encoding of Bag._reduce_composite_pk (re-translated from /repo on every run) is injective for all non-empty '
               'lists of parts over all code points, through an explicit decoder (decode (reduce pk) = pk), hence distinct objects get distinct dictionary keys; a model of the Bag.to_dict '
-              'traversal proves that every given object is reported with all attributes when no given object is referred to by another given one (the complement and the missing flush '
-              'are recorded findings with witnesses). to_dict/to_json values against current session state and pickle round trips are checked by differential search on SQLite.')
+              'traversal proves that every given object is reported with all attributes when no given object is referred to by another given one (the complement is a recorded finding with witnesses). to_dict/to_json values against current session state and pickle round trips are checked by differential search on SQLite.')
 LEVEL_NOTE = ('Trusted: Coq kernel + vm_compute; the translator; str() injectivity per key column; the correspondence harness. The value-level claims (current state incl. unflushed changes, '
               'pickle round trip) are tested, not proved.')
 TECHNIQUE = 'Coq proof of injectivity via an explicit decoder over a function regenerated from source by py2coq; vm_compute correspondence on adversarial keys and Bag traversals; shadow-state differential search'
